@@ -28,6 +28,11 @@
 #include <sys/wait.h>
 #include <unistd.h>
 
+#if defined(__SANITIZE_ADDRESS__)
+#include <sanitizer/lsan_interface.h>
+#define VR_HAVE_LSAN 1
+#endif
+
 namespace vr {
 
 inline double now_s() {
@@ -87,6 +92,7 @@ public:
     int nworkers = 16;
     double deadline_abs = 0;     // absolute now_s() deadline; 0 = none
     double hang_limit_s = 120;
+    uint64_t leak_check_every = 1;       // sanitizer builds: LeakSanitizer check after every n-th unit (0 = never)
     bool one_unit_per_process = false;   // each unit runs in a fresh process (for code with process-global state)
     std::string viol_prefix;     // per-worker violation files: <prefix>.<wid>
     uint64_t max_viol_per_worker = 200;
@@ -187,6 +193,14 @@ public:
                     if (u >= total_units) break;
                     work(u, 0);
                     sh->units_done.fetch_add(1);
+#ifdef VR_HAVE_LSAN
+                    // leak oracle (C07): everything the library allocated for this unit must be released by now
+                    if (leak_check_every && (u % leak_check_every) == 0 && __lsan_do_recoverable_leak_check()) {
+                        auto d = describe(sh->crumbs[worker_id].unit.load(), sh->crumbs[worker_id].sub.load(), sh->crumbs[worker_id].variant.load());
+                        std::string cs = sh->crumbs[worker_id].text[0] ? std::string(sh->crumbs[worker_id].text) : d.second;
+                        violation({d.first, "leak", cs, "LeakSanitizer reports memory that is no longer reachable after this unit (last case of the unit shown)"});
+                    }
+#endif
                     if (one_unit_per_process) break;
                 }
                 if (vf) fclose(vf);
@@ -226,6 +240,14 @@ public:
             if (normal) {
                 if (one_unit_per_process && sh->next_unit.load() < total_units && !sh->capped.load()) { spawn(w, false, 0, 0); continue; }
                 --alive; continue;
+            }
+            if (WIFEXITED(status) && WEXITSTATUS(status) == 2) {
+                // exit 2 inside a worker is a HARNESS error (uncaptured nondeterminism, shim assumption broken, ...):
+                // never a violation. Stop the run and propagate.
+                fprintf(stderr, "HARNESS-ERROR worker %d reported a harness error while running: %s\n", w, sh->crumbs[w].text[0] ? sh->crumbs[w].text : "(see stderr above)");
+                for (int i = 0; i < nworkers; ++i) if (pids[i] > 0) kill(pids[i], SIGKILL);
+                while (waitpid(-1, nullptr, 0) > 0) {}
+                exit(2);
             }
             // abnormal: attribute to breadcrumb
             Crumb &c = sh->crumbs[w];
